@@ -97,6 +97,10 @@ func (s *Service) scheduleSyncCommitteeMessages(ctx context.Context,
 		Uint64("last_slot", uint64(lastSlot)).
 		Msg("Setting sync committee duties for period")
 
+	// The requests above may have taken us into a later slot; do not schedule slots that have passed.
+	if firstSlot < s.chainTimeService.CurrentSlot() {
+		firstSlot = s.chainTimeService.CurrentSlot()
+	}
 	for slot := firstSlot; slot <= lastSlot; slot++ {
 		if slot == s.chainTimeService.CurrentSlot() && notCurrentSlot {
 			continue
